@@ -29,6 +29,7 @@
 (*   b    boolean <v>0|1</v>            e   error <v>#DIV/0!</v>           *)
 (*   n    number                        fn  formula with cached number     *)
 (*   z    a cell element without value (styled blank), shows nothing      *)
+(*   se   shared string cell that references an EMPTY item <si/>: nothing  *)
 (* The value of cell number v is the token v (strings), v mod 2 (boolean), *)
 (* error number v mod 7, or the number 1000 + v.                           *)
 (***************************************************************************)
@@ -45,7 +46,8 @@ CONSTANTS
     Offsets,     \* ... whose top-left corner is Offsets-shifted: <<dc, dr>>
     Rects,       \* ... the merged regions tried, as rectangles inside the window
     MaxCells, MaxMerges, MaxSheets,   \* per workbook: cells, merged regions, sheets
-    Rots,        \* rotations of the kind list (kind of cell v = Kinds[(v-1+rot) mod 10 + 1])
+    KindSeq,     \* the kind list the exploration cycles through
+    Rots,        \* rotations of it (kind of cell v = KindSeq[(v-1+rot) mod Len(KindSeq) + 1])
     Layouts      \* physical layout profiles [rowR, sstRev] (see SheetMC)
 
 VARIABLES
@@ -59,10 +61,11 @@ VARIABLES
 
 vars == <<off, rot, lay, cur, items, mseq, grid, nv>>
 
-Kinds == <<"s", "sr", "is", "isr", "str", "b", "e", "n", "fn", "z">>
+Kinds == <<"s", "sr", "is", "isr", "str", "b", "e", "n", "fn", "z", "se">>
 NK == Len(Kinds)
 KindSet == {Kinds[i] : i \in 1..NK}
 StringKinds == {"s", "sr", "is", "isr", "str"}
+Blank == {"z", "se"}      \* kinds that show nothing
 
 \* what the cell shows
 Display(t, v) ==
@@ -100,7 +103,7 @@ WriteCell(c, r, t, v) ==
     \* a cell covered by a merged region MAY carry a (stale) value in the file - the schema
     \* does not forbid it and writers that merge without clearing produce it; it is not shown
     /\ items' = [items EXCEPT ![cur] = Append(@, [c |-> c, r |-> r, t |-> t, v |-> v])]
-    /\ grid' = IF t = "z" THEN grid
+    /\ grid' = IF t \in Blank THEN grid
                ELSE [grid EXCEPT ![cur] = @ \cup {[c |-> PlaceAt(c, r)[1], r |-> PlaceAt(c, r)[2],
                                                      d |-> Display(t, v)]}]
     /\ nv' = v
@@ -123,7 +126,7 @@ WindowRects == {m \in (1..Window) \X (1..WindowRows) \X (1..Window) \X (1..Windo
 RECURSIVE CountMerges(_)
 CountMerges(k) == IF k = 0 THEN 0 ELSE CountMerges(k - 1) + Len(mseq[k])
 Shift(m) == <<m[1] + off[1], m[2] + off[2], m[3] + off[1], m[4] + off[2]>>
-KindOf(v) == Kinds[((v - 1 + rot) % NK) + 1]
+KindOf(v) == KindSeq[((v - 1 + rot) % Len(KindSeq)) + 1]
 
 Next ==
     \/ \E m \in Rects :
@@ -160,7 +163,7 @@ Shown(sh) == {g \in grid[sh] : ~Hidden(sh, g.c, g.r)}
 \* whatever the file order was.
 PlacedByRef ==
     \A sh \in 1..cur :
-        grid[sh] = { [c |-> it.c, r |-> it.r, d |-> Display(it.t, it.v)] : it \in {x \in ItemSet(sh) : x.t # "z"} }
+        grid[sh] = { [c |-> it.c, r |-> it.r, d |-> Display(it.t, it.v)] : it \in {x \in ItemSet(sh) : x.t \notin Blank} }
 
 \* one value per address, every value exactly once in the whole workbook
 FunctionLike ==
